@@ -148,6 +148,7 @@ type Obs struct {
 	Val  interface{}
 	At   int // index in the trace of scheduling points
 	Thread string
+	Clock  time.Duration // virtual time of the observation
 }
 
 var s *sched
@@ -827,7 +828,7 @@ func Observe(kind string, v interface{}) {
 	if s == nil || s.aborting {
 		return
 	}
-	s.obs = append(s.obs, Obs{Kind: kind, Val: v, At: len(s.points), Thread: s.cur.label})
+	s.obs = append(s.obs, Obs{Kind: kind, Val: v, At: len(s.points), Thread: s.cur.label, Clock: s.clock})
 	s.obsHash = mix(s.obsHash, hashStr(fmt.Sprintf("%s=%v", kind, v)))
 }
 
